@@ -24,7 +24,8 @@ func init() {
 			"(R01.3) import paths have one source: only obfuscatedImportPath, obfuscatedSourceDir and reverse hash a package's ImportPath, and every emitter (-p for compile and asm, importcfg lines, import specs, linkname and cgo directives, -X) takes the path from obfuscatedImportPath; " +
 			"(R01.4) linker and garble agree: the environment variables exported by internal/linker are the ones the embedded patches read, they are set before the linker runs, the entry-offset formula has the same operator tree on both sides, and the anchors garble patches exist in the pinned toolchain's sources; " +
 			"(R01.5) every documented 'keep the name' exception is still present; (R01.6) each -X value naming a listed package is duplicated with obfuscated path and name; " +
-			"(R01.7) package provenance: a qualified name is hashed with the package obtained by looking its path up, and both the name and the path of one symbol use the same package value. " +
+			"(R01.7) package provenance: a qualified name is hashed with the package obtained by looking its path up, and both the name and the path of one symbol use the same package value; " +
+			"(R01.8) -X arguments are split where cmd/link splits them (last dot before '='), in both of garble's parsers. " +
 			"Does not decide that renaming is consistent for every syntactic shape, nor that a garbled program compiles, runs and prints the same.",
 		perConfig: checkC01,
 		once:      checkC01goroot,
@@ -307,7 +308,110 @@ func checkC01(c *Ctx) {
 		c.Check(len(pkgVals) > 0 && same && looked, "R01.7", name+" package provenance", w.Pos(fn.Pos()), "one package value, obtained by looking the symbol's path up, is used for both the path and the name",
 			fmt.Sprintf("%s hashes a qualified symbol with different package values, or with one that was not looked up from the symbol's own path (same value: %v, looked up: %v)", name, same, looked))
 	}
+	checkXSplit(c)
 	checkLinkerAgreement(c)
+}
+
+// lastDotSplit reports whether the value depends on the index of the LAST '.' of some
+// string: strings.LastIndex(s, ".") or strings.LastIndexByte(s, '.').
+func lastDotSplit(sl *Slice) bool {
+	for _, name := range []string{"strings.LastIndex", "strings.LastIndexByte"} {
+		for _, v := range sl.Calls[name] {
+			call, ok := v.(*ssa.Call)
+			if !ok || len(call.Call.Args) != 2 {
+				continue
+			}
+			if str, ok := constString(call.Call.Args[1]); ok && str == "." {
+				return true
+			}
+			if n, ok := constInt(call.Call.Args[1]); ok && n == '.' {
+				return true
+			}
+		}
+	}
+	return false
+}
+
+// R01.8: cmd/link splits -X importpath.name=value at the first '=' and then at the
+// last '.' before it (import paths may contain dots in every element, e.g.
+// gopkg.in/yaml.v3). garble parses the same argument twice — when it decides which
+// variables keep their literal, and when it duplicates the flag for the obfuscated
+// name — and both must split where the linker does, or the injected value is
+// silently lost for exactly those packages.
+func checkXSplit(c *Ctx) {
+	w := c.W
+	c.Rule("R01.8", "-X arguments are split where cmd/link splits them: at the last dot before '='", 3)
+	// reference: the toolchain's own parser
+	for _, goroot := range gorootsFor(c.Tier) {
+		file := filepath.Join(goroot, "src", "cmd", "link", "internal", "ld", "data.go")
+		f, err := parser.ParseFile(token.NewFileSet(), file, nil, parser.SkipObjectResolution)
+		if err != nil {
+			c.Undecided("R01.8", "cmd/link addstrdata1 ("+gorootName(goroot)+")", "", "cannot parse "+file+": "+err.Error())
+			continue
+		}
+		found, lastDot := false, false
+		for _, d := range f.Decls {
+			fd, ok := d.(*ast.FuncDecl)
+			if !ok || fd.Name.Name != "addstrdata1" {
+				continue
+			}
+			found = true
+			ast.Inspect(fd, func(n ast.Node) bool {
+				if call, ok := n.(*ast.CallExpr); ok && len(call.Args) == 2 {
+					if sel, ok := call.Fun.(*ast.SelectorExpr); ok && strings.HasPrefix(sel.Sel.Name, "LastIndex") {
+						if lit, ok := call.Args[1].(*ast.BasicLit); ok && (lit.Value == `"."` || lit.Value == `'.'`) {
+							lastDot = true
+						}
+					}
+				}
+				return true
+			})
+		}
+		switch {
+		case !found:
+			c.Undecided("R01.8", "cmd/link addstrdata1 ("+gorootName(goroot)+")", "", "the linker's -X parser is not where it used to be; re-read cmd/link and update the rule")
+		default:
+			c.Check(lastDot, "R01.8", "cmd/link addstrdata1 ("+gorootName(goroot)+")", "", "reference: the linker splits at the last dot before '='",
+				"the linker no longer splits -X at the last dot; garble's two parsers must be re-derived from it")
+		}
+	}
+	// garble's two parsers
+	if fn := w.Fn("computeLinkerVariableStrings"); fn != nil {
+		n := 0
+		for _, f := range append([]*ssa.Function{fn}, fn.AnonFuncs...) {
+			for _, cs := range w.CallsTo("(*go/types.Scope).Lookup") {
+				if cs.Fn != f {
+					continue
+				}
+				n++
+				sl := w.BackSlice(cs.Args()[len(cs.Args())-1], sliceOpt{IntoCallees: true, Depth: 3})
+				c.Check(lastDotSplit(sl), "R01.8", "computeLinkerVariableStrings: variable name", w.Pos(cs.Instr.Pos()), "the name looked up in the package scope is what follows the last dot",
+					"the variable name of a -X flag is not taken after the LAST dot: for an import path whose last element contains a dot the variable is not found, its literal is obfuscated and the linker's value is silently ignored")
+			}
+		}
+		if n == 0 {
+			c.Undecided("R01.8", "computeLinkerVariableStrings: variable name", w.Pos(fn.Pos()), "no Scope.Lookup of the -X variable found")
+		}
+	} else {
+		c.Undecided("R01.8", "computeLinkerVariableStrings", "", "function not found")
+	}
+	if tl := w.Fn("(*transformer).transformLink"); tl != nil {
+		n := 0
+		for _, f := range append([]*ssa.Function{tl}, tl.AnonFuncs...) {
+			for _, cs := range w.CallsToFn(w.Fn("hashWithPackage")) {
+				if cs.Fn != f {
+					continue
+				}
+				n++
+				sl := w.BackSlice(cs.Args()[1], sliceOpt{IntoCallees: true, Depth: 3})
+				c.Check(lastDotSplit(sl), "R01.8", "transformLink: -X variable name", w.Pos(cs.Instr.Pos()), "the name hashed for the duplicated flag is what follows the last dot",
+					"the duplicated -X flag hashes a name that is not taken after the LAST dot: for an import path whose last element contains a dot the obfuscated symbol never receives the value")
+			}
+		}
+		if n == 0 {
+			c.Undecided("R01.8", "transformLink: -X variable name", w.Pos(tl.Pos()), "no hashWithPackage call found in transformLink")
+		}
+	}
 }
 
 // R01.4 (repo side)
@@ -528,7 +632,7 @@ func checkC01goroot(c *Ctx) {
 		rt := read("runtime/symtab.go")
 		c.Check(c01anchors.magicConst != "" && regexp.MustCompile(`\b`+regexp.QuoteMeta(c01anchors.magicConst)+`\s+\w+\s*=`).MatchString(abi), "R01.4", "anchor "+c01anchors.magicConst+" ("+gv+")", "GOROOT/src/internal/abi/symtab.go",
 			"constant declared with a single value", "internal/abi/symtab.go of "+gv+" does not declare the constant updateMagicValue rewrites: garble panics for this toolchain")
-		okEntry := regexp.MustCompile(`func \(f funcInfo\) `+regexp.QuoteMeta(c01anchors.entryFunc)+`\(\) uintptr \{\s*return f\.datap\.`+regexp.QuoteMeta(c01anchors.callName)+`\(f\.\w+\)`).MatchString(rt)
+		okEntry := regexp.MustCompile(`func \(f funcInfo\) ` + regexp.QuoteMeta(c01anchors.entryFunc) + `\(\) uintptr \{\s*return f\.datap\.` + regexp.QuoteMeta(c01anchors.callName) + `\(f\.\w+\)`).MatchString(rt)
 		c.Check(c01anchors.entryFunc != "" && okEntry, "R01.4", "anchor funcInfo.entry ("+gv+")", "GOROOT/src/runtime/symtab.go",
 			"entry() returns f.datap.textAddr(f.<field>)", "runtime/symtab.go of "+gv+" has no funcInfo.entry of the shape updateEntryOffset rewrites")
 		c.Check(c01anchors.field != "" && regexp.MustCompile(`\b`+regexp.QuoteMeta(c01anchors.field)+`\s+int32`).MatchString(read("runtime/runtime2.go")+rt), "R01.4", "anchor field "+c01anchors.field+" ("+gv+")", "GOROOT/src/runtime",
